@@ -38,9 +38,9 @@ def run(tier, seed):
     res = pmap("harness.checks.c08", "run_family", fams)
     rs, owners = [], []
     for f, r in zip(fams, res):
-        for t in r["ladim"][1:]:
+        for k, t in enumerate(r["ladim"][1:]):
             rs.append(t)
-            owners.append(f)
+            owners.append(dict(f, restart_k=k))      # (replay re-runs the family and validates this restart)
     rep.add_tv("e2e-records-after-restart", "LadimTrace", owners, rs, tlc.validate_traces("LadimTrace", rs, batch_events=1500), family=FAMILY)
     rep.nontrivial = len({repr((s["rows"], s["kill"], s["ops"], s["numrec"], s["layout"])) for s in scs if s["kill"]})
     rep.rule = ("random end-to-end scenarios (two thirds with 2-5 scripted deaths and freezes, particle variables, lon/lat output, sparse/dense, split files, "
